@@ -10,6 +10,8 @@ import hashlib
 from fractions import Fraction
 
 from . import ir
+from . import symarr
+from .symarr import A
 
 VERSION = 'py2coq-1'
 
@@ -161,7 +163,8 @@ class Translator(object):
     def function(self, qualname, consts=None, capture=None, free_on_call=(), inline=(),
                  name=None, param_order=None, drop_params=(), callees=None, list_params=(),
                  skip_shape_returns=False, dict_list_params=None, tuple_params=None, test_overrides=None,
-                 vararg_len=None, state_params=(), methods=None):
+                 vararg_len=None, state_params=(), methods=None, array_params=None, array_mode=False,
+                 scalars_are_arrays=False, prefer_handler=False, oracle_calls=None):
         """consts: parameter/global name -> python constant (partial evaluation).
         capture: None (the return value) | ('assign', var, k[, unwrap_fn]) the k-th real-valued
         assignment to var (optionally unwrapping a call to unwrap_fn, e.g. 'ln')."""
@@ -173,6 +176,10 @@ class Translator(object):
         st.test_overrides = dict(test_overrides or {})
         st.state_params = set(state_params)
         st.methods = dict(methods or {})
+        st.array_mode = bool(array_mode or array_params)
+        st.scalars_are_arrays = scalars_are_arrays
+        st.prefer_handler = prefer_handler
+        st.oracle_calls = dict(oracle_calls or {})
         for dname, keys in (dict_list_params or {}).items():
             for k in keys:
                 lp = '%s_%s' % (dname, k)
@@ -192,6 +199,19 @@ class Translator(object):
                 continue
             if consts and nm in consts:
                 st.env[nm] = _const_ir(consts[nm])
+            elif array_params and nm in array_params:
+                shape, ismat = array_params[nm]
+                names = []
+                def mk(prefix, dims):
+                    if not dims:
+                        v = st.fresh(prefix)
+                        params.append(v)
+                        names.append(('var', v))
+                        return
+                    for i in range(dims[0]):
+                        mk('%s_%d' % (prefix, i), dims[1:])
+                mk(nm, list(shape))
+                st.env[nm] = A(shape, names, ismat)
             elif nm in st.state_params:
                 st.used.add(nm)
                 params.append(nm)
@@ -231,6 +251,22 @@ class Translator(object):
                 raise Untranslatable('no return value in %s' % qualname, fn)
         except _Captured as c:
             res = c.expr
+        shapes = []
+
+        def flat(v):
+            if isinstance(v, A):
+                shapes.append(v.shape)
+                return list(v.data)
+            if v[0] in ('tuple', 'pylist'):
+                out = []
+                for x in v[1]:
+                    out += flat(x)
+                return out
+            shapes.append(())
+            return [v]
+        if isinstance(res, A) or res[0] in ('tuple', 'pylist'):
+            items = flat(res)
+            res = ('tuple', items) if len(items) > 1 else items[0]
         params += st.extra_params
         if param_order:
             params = [p for p in param_order if p in params] + [p for p in params if p not in param_order]
@@ -238,6 +274,7 @@ class Translator(object):
         d = Def(name or qualname.replace('.', '_'), params, st.lets, res, st.stats, h)
         d.list_params = set(st.list_params)
         d.state_vars = list(st.state_vars)
+        d.shapes = shapes
         _prune(d)
         for lp in sorted(st.list_params):
             if ir.lifted(d.result, st.list_params) and (lp + '_elt') not in d.params:
@@ -284,6 +321,10 @@ class _State(object):
         self.loop_mode = False
         self.loops = []
         self.n_random = 0
+        self.array_mode = False
+        self.scalars_are_arrays = False
+        self.cont_stack = []
+        self.oracle_calls = {}
         self.consts = consts
         self.env = {}
         self.lets = []
@@ -306,8 +347,12 @@ class _State(object):
 
     def bind(self, name, e):
         """bind python variable to expression, through a let when non-trivial."""
-        if e[0] in ('var', 'num', 'const', 'pi'):
+        if isinstance(e, A):
+            return A(e.shape, [self.bind(name, x) for x in e.data], e.ismat)
+        if e[0] in ('var', 'num', 'const', 'pi', 'cmp', 'and', 'or', 'not', 'dict', 'argsort', 'sortdesc', 'unique', 'inf'):
             return e
+        if e[0] in ('tuple', 'pylist'):
+            return (e[0], [self.bind(name, x) for x in e[1]])
         if self.list_params and ir.lifted(e, self.list_params):
             return e   # elementwise in a list parameter: stays inline (cannot be hoisted out of the map)
         v = self.fresh(name)
@@ -355,11 +400,27 @@ class _State(object):
         if isinstance(s, (ast.Delete, ast.Pass, ast.Global, ast.Import, ast.ImportFrom)):
             return None
         if isinstance(s, ast.Return):
+            if isinstance(s.value, ast.Tuple):
+                return (('pylist', [self.expr(x, env) for x in s.value.elts]),)
             return (self.expr(s.value, env),)
         if isinstance(s, ast.Assign):
             if len(s.targets) != 1:
                 raise Untranslatable('multiple targets', s)
             self.assign(s.targets[0], s.value, env, s)
+            return None
+        if isinstance(s, ast.AugAssign) and isinstance(s.target, ast.Subscript) and isinstance(s.target.value, ast.Name) \
+                and isinstance(env.get(s.target.value.id), A):
+            op = {ast.Add: '+', ast.Sub: '-', ast.Mult: '*', ast.Div: '/'}.get(type(s.op))
+            if op is None:
+                raise Untranslatable('augmented masked assignment', s)
+            self.masked_update(s.target, s.value, op, env, s)
+            return None
+        if isinstance(s, ast.AugAssign) and isinstance(s.target, ast.Name) and isinstance(env.get(s.target.id), A):
+            op = {ast.Add: '+', ast.Sub: '-', ast.Mult: '*', ast.Div: '/'}.get(type(s.op))
+            try:
+                env[s.target.id] = self.bind(s.target.id, self.arith(op, env[s.target.id], self.expr(s.value, env), s))
+            except NotImplementedError as e:
+                raise Untranslatable('array semantics: %s' % e, s)
             return None
         if isinstance(s, ast.AugAssign):
             op = {ast.Add: '+', ast.Sub: '-', ast.Mult: '*', ast.Div: '/'}.get(type(s.op))
@@ -406,6 +467,9 @@ class _State(object):
             raise Untranslatable('while loop', s)
         if isinstance(s, ast.With):
             return self.block_result(s.body, env)
+        if isinstance(s, ast.Try) and self.prefer_handler and s.handlers:
+            self.stats['handler_taken_by_spec'] = self.stats.get('handler_taken_by_spec', 0) + 1
+            return self.block_result(s.handlers[-1].body, env)
         if isinstance(s, ast.Try):
             # a try whose body touches a module folded to None/False takes the handler
             if self.mentions_dead_module(s.body, env):
@@ -419,9 +483,47 @@ class _State(object):
             raise Untranslatable('reachable raise', s)
         raise Untranslatable('statement %s' % type(s).__name__, s)
 
+    def masked_update(self, target, value, op, env, s):
+        """x[mask] = v / x[:, mask] op= v on a symbolic array: elementwise `if mask then new else old`"""
+        nm = target.value.id
+        cur = env[nm]
+        parts = target.slice.elts if isinstance(target.slice, ast.Tuple) else [target.slice]
+        try:
+            idx = [self.static_index(p_, env) for p_ in parts]
+            val = self.expr(value, env)
+            masks = [i for i in idx if isinstance(i, A)]
+            if len(masks) != 1 or any(i is None for i in idx) or any(not (isinstance(i, A) or i == 'all') for i in idx):
+                raise Untranslatable('only boolean-mask updates of arrays are supported', s)
+            mask = masks[0]
+            # orient the mask: a mask in the last position of a 2-d index selects columns
+            if cur.ndim == 2 and len(idx) == 2 and isinstance(idx[1], A):
+                m2 = A((1, len(mask.data)), mask.data)
+            elif cur.ndim == 2 and len(idx) == 1 and mask.ndim <= 1 and len(mask.data) == cur.shape[0]:
+                m2 = A((len(mask.data), 1), mask.data)
+            else:
+                m2 = mask
+            new = cur if op is None else None
+            if op is None:
+                newv = val
+            else:
+                newv = symarr.elementwise(self._bin(op), cur.as_array() if isinstance(cur, A) else cur, val)
+            sel = symarr.elementwise(lambda c, pair: pair, m2, symarr.elementwise(lambda a_, b_: ('pair', a_, b_), newv, cur.as_array()))
+            out = symarr.elementwise(lambda c, pr_: c, m2, sel)
+            data = []
+            mb = symarr.elementwise(lambda c, x: c, m2, cur.as_array())
+            nb = symarr.elementwise(lambda x, y: x, newv, cur.as_array()) if isinstance(newv, A) or True else newv
+            for c, nv, ov in zip(mb.data, (nb.data if isinstance(nb, A) else [nb] * len(cur.data)), cur.data):
+                if c[0] == 'const':
+                    data.append(nv if c[1] else ov)
+                else:
+                    data.append(('if', c, nv, ov))
+            env[nm] = self.bind(nm, A(cur.shape, data, cur.ismat))
+        except NotImplementedError as e:
+            raise Untranslatable('array semantics: %s' % e, s)
+
     def bind_target(self, target, value, env, s):
         if isinstance(target, ast.Name):
-            env[target.id] = value if value[0] == 'tuple' else self.bind(target.id, value)
+            env[target.id] = value if (not isinstance(value, A) and value[0] == 'tuple') else self.bind(target.id, value)
             return
         if isinstance(target, ast.Tuple) and value[0] == 'tuple' and len(value[1]) == len(target.elts):
             for t, v in zip(target.elts, value[1]):
@@ -432,6 +534,15 @@ class _State(object):
     def block_result(self, stmts, env):
         r = self.block(stmts, env)
         return None if r is None else (r,)
+
+    def nested(self, stmts, env, rest):
+        """a nested block; `rest` (what follows it in the enclosing block) is remembered so that an early return in
+        one branch of a value-dependent `if` inside can be completed with the enclosing continuation"""
+        self.cont_stack.append(rest)
+        try:
+            return self.block_result(stmts, env)
+        finally:
+            self.cont_stack.pop()
 
     def mentions_dead_module(self, stmts, env):
         for n in ast.walk(ast.Module(body=stmts, type_ignores=[])):
@@ -466,6 +577,9 @@ class _State(object):
                 env[target.id] = ('var', v)
                 return
             val = self.expr(value, env)
+            if isinstance(val, A) or val[0] in ('argsort', 'sortdesc', 'unique', 'pylist'):
+                env[target.id] = self.bind(target.id, val) if isinstance(val, A) else val
+                return
             if val[0] == 'dict':
                 env[target.id] = val
                 return
@@ -478,8 +592,8 @@ class _State(object):
             return
         if isinstance(target, ast.Tuple) and not isinstance(value, ast.Tuple):
             val = self.expr(value, env)
-            if val[0] == 'tuple' and len(val[1]) == len(target.elts):
-                self.bind_target(target, val, env, s)
+            if not isinstance(val, A) and val[0] in ('tuple', 'pylist') and len(val[1]) == len(target.elts):
+                self.bind_target(target, ('tuple', val[1]), env, s)
                 return
             raise Untranslatable('unpacking of a non-tuple value', s)
         if isinstance(target, ast.Subscript) and isinstance(target.value, ast.Name) and \
@@ -503,6 +617,9 @@ class _State(object):
                 if not isinstance(t, ast.Name):
                     raise Untranslatable('tuple target', s)
                 env[t.id] = self.bind(t.id, v)
+            return
+        if isinstance(target, ast.Subscript) and isinstance(target.value, ast.Name) and isinstance(env.get(target.value.id), A):
+            self.masked_update(target, value, None, env, s)
             return
         if isinstance(target, ast.Subscript) and isinstance(target.value, ast.Name):
             # x[mask(x)] = v   ->   x := if mask then v else x
@@ -528,6 +645,19 @@ class _State(object):
         if all(isinstance(b, ast.Raise) for b in s.body) and not s.orelse:
             self.stats['guards_skipped'] += 1
             return None
+        if self.array_mode:
+            # with shape-exact symbolic arrays, shape/type tests are decided statically
+            try:
+                n_before = len(self.lets)
+                c0 = self.cond(s.test, env)
+                del self.lets[n_before:]
+            except Untranslatable:
+                c0 = None
+            if c0 is not None and c0[0] == 'const':
+                self.stats['dead_branches_folded'] += 1
+                return self.nested(s.body if c0[1] else s.orelse, env, rest)
+            if c0 is not None and ast.unparse(s.test) not in self.test_overrides:
+                return self.value_if(s, c0, env, rest)
         key = ast.unparse(s.test)
         if key in self.test_overrides:
             self.stats['tests_decided_by_spec'] = self.stats.get('tests_decided_by_spec', 0) + 1
@@ -547,21 +677,35 @@ class _State(object):
         c = self.cond(s.test, env)
         if c[0] == 'const':
             self.stats['dead_branches_folded'] += 1
-            return self.block_result(s.body if c[1] else s.orelse, env)
+            return self.nested(s.body if c[1] else s.orelse, env, rest)
+        return self.value_if(s, c, env, rest)
+
+    def value_if(self, s, c, env, rest):
         env_t, env_e = dict(env), dict(env)
         r_t = self.block(s.body, env_t)
         r_e = self.block(s.orelse, env_e)
         if r_t is not None and r_e is not None:
-            return (('if', c, r_t, r_e),)
+            return (self.merge_results(c, r_t, r_e, s),)
         if r_t is not None or r_e is not None:
             # one side returned: the other side continues with the rest of the block
             cont_env = env_e if r_t is not None else env_t
             r_rest = self.block(rest, cont_env)
+            for frame in reversed(self.cont_stack):
+                if r_rest is not None:
+                    break
+                r_rest = self.block(frame, cont_env)
             if r_rest is None:
                 raise Untranslatable('branch returns but continuation does not', s)
-            return (('if', c, r_t, r_rest) if r_t is not None else ('if', c, r_rest, r_e),)
+            return (self.merge_results(c, r_t, r_rest, s) if r_t is not None else self.merge_results(c, r_rest, r_e, s),)
         for k in set(list(env_t.keys()) + list(env_e.keys())):
             a, b = env_t.get(k), env_e.get(k)
+            if isinstance(a, A) or isinstance(b, A):
+                if isinstance(a, A) and isinstance(b, A) and a.shape == b.shape:
+                    env[k] = a if a.data == b.data and a.ismat == b.ismat else \
+                        self.bind(k, A(a.shape, [x if x == y else ('if', c, x, y) for x, y in zip(a.data, b.data)], a.ismat))
+                else:
+                    env.pop(k, None)
+                continue
             if a == b:
                 env[k] = a
             elif a is not None and b is not None and (a[0] == 'tuple' or b[0] == 'tuple'):
@@ -576,6 +720,26 @@ class _State(object):
                 self.count_assign(k, new)
                 env[k] = self.bind(k, new)
         return None
+
+    def merge_results(self, c, a, b, s):
+        """`if c then a else b` on return values; tuples / arrays are merged componentwise (a length-1 array and a
+        scalar are identified: the model is about the numbers returned, the harness compares flattened outputs)"""
+        def flat(v):
+            if isinstance(v, A):
+                return list(v.data)
+            if v[0] in ('tuple', 'pylist'):
+                out = []
+                for x in v[1]:
+                    out += flat(x)
+                return out
+            return [v]
+        structured = lambda v: isinstance(v, A) or v[0] in ('tuple', 'pylist')
+        if not structured(a) and not structured(b):
+            return ('if', c, a, b)
+        fa, fb = flat(a), flat(b)
+        if len(fa) != len(fb):
+            raise Untranslatable('branches return %d and %d values' % (len(fa), len(fb)), s)
+        return ('pylist', [x if x == y else ('if', c, x, y) for x, y in zip(fa, fb)])
 
     def shape_return_chain(self, s, env):
         """if/elif chain on shapes whose bodies only return a reshaped argument (degenerate
@@ -691,12 +855,30 @@ class _State(object):
         if isinstance(t, ast.UnaryOp) and isinstance(t.op, ast.Not):
             v = self.cond(t.operand, env)
             return ('const', not v[1]) if v[0] == 'const' else ('not', v)
+        if isinstance(t, ast.Compare) and len(t.ops) == 1 and isinstance(t.left, ast.Call) and _dotted(t.left.func) == 'len' \
+                and self.array_mode and isinstance(t.ops[0], ast.Eq):
+            inner = self.expr(t.left.args[0], env)
+            rhs = self.expr(t.comparators[0], env)
+            if not isinstance(inner, A) and inner[0] == 'unique' and rhs == ir.num(1):
+                v = inner[1].data
+                c = None
+                for x, y in zip(v, v[1:]):
+                    e_ = ('cmp', '==', x, y)
+                    c = e_ if c is None else ('and', c, e_)
+                return c if c is not None else ('const', True)
         if isinstance(t, ast.Compare) and len(t.ops) == 1:
             op = {ast.Lt: '<', ast.LtE: '<=', ast.Gt: '>', ast.GtE: '>=', ast.Eq: '==', ast.NotEq: '!=',
                   ast.Is: '==', ast.IsNot: '!='}.get(type(t.ops[0]))
             if op is None:
                 raise Untranslatable('comparison operator', t)
             a, b = self.expr(t.left, env), self.expr(t.comparators[0], env)
+            # numpy: the truth value of a one-element array is that of its element
+            if isinstance(a, A) and len(a.data) == 1:
+                a = a.data[0]
+            if isinstance(b, A) and len(b.data) == 1:
+                b = b.data[0]
+            if isinstance(a, A) or isinstance(b, A):
+                raise Untranslatable('truth value of an array comparison', t)
             if a[0] == 'inf' or b[0] == 'inf':
                 # a real-valued (finite) quantity compared with an infinity: decided statically; the
                 # infinite case itself is outside the real-valued model (covered by the correspondence run)
@@ -720,6 +902,10 @@ class _State(object):
                 raise Untranslatable('comparison of a non-numeric constant with data', t)
             return ('cmp', op, a, b)
         if isinstance(t, ast.Call) and _dotted(t.func) == 'isinstance':
+            if self.array_mode:
+                v = self.expr(t, env)
+                if not isinstance(v, A) and v[0] == 'const':
+                    return v
             raise Untranslatable('isinstance in a value condition', t)
         v = self.expr(t, env)
         if v[0] == 'const':
@@ -746,6 +932,295 @@ class _State(object):
         return e
 
     def expr(self, n, env):
+        if self.array_mode:
+            try:
+                r = self.aexpr(n, env)
+            except NotImplementedError as e:
+                raise Untranslatable('array semantics: %s' % e, n)
+            if r is not NotImplemented:
+                return r
+        return self.expr_scalar(n, env)
+
+    # ------------------------------------------------------------ arrays (symarr)
+    def _bin(self, op):
+        return lambda x, y: self.fold(('bin', op, x, y))
+
+    def arith(self, op, a, b, node):
+        if isinstance(a, A) and isinstance(b, A) and (a.ismat or b.ismat) and op == '*':
+            # numpy: `*` with a matrix operand is the matrix product (the other operand is converted with asmatrix)
+            a, b = a.as_matrix(), b.as_matrix()
+            return symarr.matmul(self.bind('m', a), self.bind('m', b), self._bin('+'), self._bin('*'), ir.num(0))
+        na = len(a.data) if isinstance(a, A) else 1
+        nb = len(b.data) if isinstance(b, A) else 1
+        if na < nb:
+            a = self.bind('t', a)     # the operand that is broadcast is shared, not duplicated
+        elif nb < na:
+            b = self.bind('t', b)
+        return symarr.elementwise(self._bin(op), a, b)
+
+    def amap(self, f, v):
+        return v.map(f) if isinstance(v, A) else f(v)
+
+    def static_index(self, node, env):
+        """index expression -> int | 'all' | list of ints | A of conditions (mask) | None"""
+        if isinstance(node, ast.Slice):
+            if node.lower is None and node.upper is None and node.step is None:
+                return 'all'
+            return None
+        v = self.expr(node, env)
+        if isinstance(v, A):
+            if all(x[0] == 'num' for x in v.data):
+                return [int(x[1]) for x in v.data]
+            return v     # mask of conditions
+        if v[0] == 'num' and v[1].denominator == 1:
+            return int(v[1])
+        if v[0] == 'tuple' and all(x[0] == 'num' for x in v[1]):
+            return [int(x[1]) for x in v[1]]
+        if v[0] in ('cmp', 'and', 'or', 'not', 'const'):
+            return A((), [v])
+        return None
+
+    def aexpr(self, n, env):
+        if isinstance(n, ast.Attribute):
+            if n.attr in ('T',):
+                v = self.expr(n.value, env)
+                if isinstance(v, A):
+                    return v.T()
+                return NotImplemented
+            if n.attr == 'shape':
+                v = self.expr(n.value, env)
+                if isinstance(v, A):
+                    return ('tuple', [ir.num(x) for x in v.shape])
+                return NotImplemented
+            if n.attr == 'ndim':
+                v = self.expr(n.value, env)
+                if isinstance(v, A):
+                    return ir.num(v.ndim)
+                return NotImplemented
+            return NotImplemented
+        if isinstance(n, ast.UnaryOp) and isinstance(n.op, (ast.USub, ast.Invert)):
+            v = self.expr(n.operand, env)
+            if isinstance(v, A):
+                if isinstance(n.op, ast.USub):
+                    return v.map(lambda x: self.fold(('neg', x)))
+                return v.map(lambda c: ('not', c))
+            return NotImplemented
+        if isinstance(n, ast.BinOp):
+            if isinstance(n.op, ast.Pow):
+                a = self.expr(n.left, env)
+                if isinstance(a, A):
+                    k = self.expr(n.right, env)
+                    if k[0] == 'num' and k[1].denominator == 1 and 0 <= k[1] <= 8:
+                        return a.map(lambda x: ('pow', x, int(k[1])))
+                    raise NotImplementedError('array power')
+                return NotImplemented
+            op = {ast.Add: '+', ast.Sub: '-', ast.Mult: '*', ast.Div: '/'}.get(type(n.op))
+            if op is None:
+                return NotImplemented
+            a, b = self.expr(n.left, env), self.expr(n.right, env)
+            if isinstance(a, A) or isinstance(b, A):
+                if op == '*' and ((isinstance(a, A) and a.data and a.data[0][0] in ('cmp', 'and', 'or', 'not')) or
+                                  (isinstance(b, A) and b.data and b.data[0][0] in ('cmp', 'and', 'or', 'not'))):
+                    return symarr.elementwise(lambda x, y: ('and', x, y), a, b)    # product of boolean masks
+                return self.arith(op, a, b, n)
+            if op == '*' and a[0] in ('cmp', 'and', 'or', 'not') and b[0] in ('cmp', 'and', 'or', 'not'):
+                return ('and', a, b)
+            return NotImplemented
+        if isinstance(n, ast.Compare) and len(n.ops) == 1:
+            a, b = self.expr(n.left, env), self.expr(n.comparators[0], env)
+            if isinstance(a, A) or isinstance(b, A):
+                op = {ast.Lt: '<', ast.LtE: '<=', ast.Gt: '>', ast.GtE: '>=', ast.Eq: '==', ast.NotEq: '!='}.get(type(n.ops[0]))
+                if op is None:
+                    raise NotImplementedError('array comparison')
+                return symarr.elementwise(lambda x, y: ('cmp', op, x, y), a, b)
+            return NotImplemented
+        if isinstance(n, ast.Subscript):
+            base = self.expr(n.value, env)
+            if not isinstance(base, A) and base[0] == 'argsort':
+                sl = n.slice
+                if isinstance(sl, ast.Slice) and sl.lower is None and sl.upper is None and isinstance(sl.step, ast.UnaryOp) \
+                        and isinstance(sl.step.op, ast.USub) and isinstance(sl.step.operand, ast.Constant) and sl.step.operand.value == 1:
+                    return ('sortdesc', base[1])
+                raise NotImplementedError('slice of argsort')
+            if not isinstance(base, A):
+                return NotImplemented
+            if isinstance(n.slice, ast.Name) and not isinstance(env.get(n.slice.id), A) and env.get(n.slice.id, ('x',))[0] == 'sortdesc':
+                src = env[n.slice.id][1]
+                if src.data != base.data or len(base.data) != 3:
+                    raise NotImplementedError('reordering by the sort order of another array')
+                a_, b_, c_ = base.data
+                mx = ('call', 'max', [('call', 'max', [a_, b_]), c_])
+                mn = ('call', 'min', [('call', 'min', [a_, b_]), c_])
+                mid = ('bin', '-', ('bin', '-', ('bin', '+', ('bin', '+', a_, b_), c_), mx), mn)
+                self.stats['sorted_descending'] = self.stats.get('sorted_descending', 0) + 1
+                return self.bind('sorted', A(base.shape, [mx, mid, mn], base.ismat))
+            sl = n.slice
+            parts = sl.elts if isinstance(sl, ast.Tuple) else [sl]
+            idx = [self.static_index(p_, env) for p_ in parts]
+            if any(i is None for i in idx):
+                raise NotImplementedError('array index')
+            if any(isinstance(i, A) for i in idx):
+                self.stats['masked_reads'] = self.stats.get('masked_reads', 0) + 1
+                return base      # masked read: only meaningful on the right of a masked assignment
+            return symarr.index(base, tuple(idx) if len(idx) > 1 else idx[0])
+        if isinstance(n, (ast.List, ast.Tuple)):
+            items = [self.expr(x, env) for x in n.elts]
+            if any(isinstance(x, A) for x in items):
+                return ('pylist', items)
+            return NotImplemented
+        if isinstance(n, ast.Call):
+            return self.acall(n, env)
+        return NotImplemented
+
+    def _nested(self, node, env):
+        """python list literal (possibly nested) -> nested python lists of values"""
+        if isinstance(node, (ast.List, ast.Tuple)):
+            return [self._nested(x, env) for x in node.elts]
+        v = self.expr(node, env)
+        if not isinstance(v, A) and v[0] == 'tuple':
+            return list(v[1])
+        if not isinstance(v, A) and v[0] == 'pylist':
+            return list(v[1])
+        return v
+
+    def acall(self, n, env):
+        d = _dotted(n.func)
+        args = n.args
+        kw = dict((k.arg, k.value) for k in n.keywords)
+        if isinstance(n.func, ast.Attribute) and d is not None and not d.startswith('np.'):
+            meth = n.func.attr
+            if meth == 'argsort' and not args:
+                recv = self.expr(n.func.value, env)
+                if isinstance(recv, A):
+                    return ('argsort', recv)
+                return NotImplemented
+            if meth in ('flatten', 'copy', 'squeeze', 'transpose', 'astype'):
+                recv = self.expr(n.func.value, env)
+                if isinstance(recv, A):
+                    if meth == 'flatten':
+                        return recv.flatten()
+                    if meth == 'squeeze':
+                        return recv.squeeze()
+                    if meth == 'transpose':
+                        return recv.T()
+                    return recv
+                return NotImplemented
+            return NotImplemented
+        if d is None and isinstance(n.func, ast.Attribute) and n.func.attr in ('flatten', 'copy', 'squeeze', 'transpose'):
+            recv = self.expr(n.func.value, env)
+            if isinstance(recv, A):
+                return {'flatten': recv.flatten, 'copy': lambda: recv, 'squeeze': recv.squeeze, 'transpose': recv.T}[n.func.attr]()
+            return NotImplemented
+        if d is None:
+            return NotImplemented
+        mod, _, f = d.rpartition('.')
+        if d == 'isinstance' and len(args) == 2:
+            v = self.expr(args[0], env)
+            cls = _dotted(args[1])
+            if not isinstance(v, A) and v[0] in ('tuple', 'pylist') and cls == 'bool':
+                return ('const', False)
+            if not isinstance(v, A) and v[0] == 'const' and cls == 'bool':
+                return ('const', isinstance(v[1], bool))
+            if isinstance(v, A):
+                if cls in ('np.matrixlib.defmatrix.matrix', 'np.matrix'):
+                    return ('const', v.ismat)
+                if cls == 'np.ndarray':
+                    return ('const', True)
+            if isinstance(args[1], ast.Tuple):
+                names = [_dotted(x) for x in args[1].elts]
+                if all(x in ('list', 'np.ndarray', 'tuple') for x in names):
+                    if isinstance(v, A):
+                        return ('const', 'np.ndarray' in names)
+                    if v[0] in ('var', 'bin', 'neg', 'call', 'num', 'if', 'pi', 'pow'):
+                        return ('const', False)      # a python/numpy scalar
+            return NotImplemented
+        if d == 'len' and len(args) == 1:
+            v = self.expr(args[0], env)
+            if isinstance(v, A):
+                return ir.num(v.shape[0])
+            return NotImplemented
+        if mod not in ('np', 'numpy'):
+            return NotImplemented
+        if f in ('array', 'matrix', 'asarray', 'ascontiguousarray'):
+            if isinstance(args[0], (ast.List, ast.Tuple)):
+                nested = self._nested(args[0], env)
+                return symarr.from_nested(nested, f == 'matrix')
+            v = self.expr(args[0], env)
+            if isinstance(v, A):
+                return v.as_matrix() if f == 'matrix' else v.as_array()
+            if not isinstance(v, A) and v[0] in ('tuple', 'pylist'):
+                return symarr.from_nested(list(v[1]), f == 'matrix')
+            if self.scalars_are_arrays and f in ('array', 'matrix') and v[0] not in ('const',):
+                return A((), [v]).as_matrix() if f == 'matrix' else A((), [v])
+            return NotImplemented
+        vals = None
+        if f in NP_UNARY and len(args) == 1:
+            v = self.expr(args[0], env)
+            if isinstance(v, A):
+                return v.map(lambda x: ('call', NP_UNARY[f], [x]))
+            if v[0] == 'unique':
+                # only reached in the branch where all elements are equal: the single distinct value
+                return ('call', NP_UNARY[f], [v[1].data[0]])
+            return NotImplemented
+        if f in NP_BINARY and len(args) == 2:
+            a, b = self.expr(args[0], env), self.expr(args[1], env)
+            if isinstance(a, A) or isinstance(b, A):
+                return symarr.elementwise(self._bin(NP_BINARY[f]), a, b)     # np.multiply is elementwise even for matrices
+            return NotImplemented
+        if f in ('arctan2', 'mod') and len(args) == 2:
+            a, b = self.expr(args[0], env), self.expr(args[1], env)
+            if isinstance(a, A) or isinstance(b, A):
+                fn = 'atan2' if f == 'arctan2' else 'rmod'
+                return symarr.elementwise(lambda x, y: ('call', fn, [x, y]), a, b)
+            return NotImplemented
+        if f == 'sum' and len(args) >= 1:
+            v = self.expr(args[0], env)
+            if isinstance(v, A):
+                axis = None
+                if len(args) > 1:
+                    axis = self.static_index(args[1], env)
+                if 'axis' in kw:
+                    axis = self.static_index(kw['axis'], env)
+                return symarr.reduce_sum(v, axis, self._bin('+'), ir.num(0))
+            return NotImplemented
+        if f == 'einsum' and len(args) == 3 and isinstance(args[0], ast.Constant) and args[0].value == 'ij,ij->j':
+            a, b = self.expr(args[1], env), self.expr(args[2], env)
+            if isinstance(a, A) and isinstance(b, A) and a.shape == b.shape and a.ndim == 2:
+                prod = symarr.elementwise(self._bin('*'), a.as_array(), b.as_array())
+                s_ = symarr.reduce_sum(prod, 0, self._bin('+'), ir.num(0))
+                return s_.as_array() if isinstance(s_, A) else s_
+            raise NotImplementedError('einsum operands')
+        if f == 'cross' and len(args) == 2:
+            a, b = self.expr(args[0], env), self.expr(args[1], env)
+            if isinstance(a, A) and isinstance(b, A):
+                return symarr.cross(a, b, self._bin('-'), self._bin('*'))
+            return NotImplemented
+        if f == 'diag' and len(args) == 1:
+            v = self.expr(args[0], env)
+            if isinstance(v, A):
+                return symarr.diag(v)
+            return NotImplemented
+        if f in ('squeeze', 'real', 'transpose') and len(args) >= 1:
+            v = self.expr(args[0], env)
+            if isinstance(v, A):
+                return {'squeeze': v.squeeze, 'real': lambda: v, 'transpose': v.T}[f]()
+            return NotImplemented
+        if f == 'prod' and len(args) == 1:
+            v = self.expr(args[0], env)
+            if not isinstance(v, A) and v[0] == 'tuple' and all(x[0] == 'num' for x in v[1]):
+                p_ = Fraction(1)
+                for x in v[1]:
+                    p_ *= x[1]
+                return ('num', p_)
+            return NotImplemented
+        if f == 'unique' and len(args) == 1:
+            v = self.expr(args[0], env)
+            if isinstance(v, A):
+                return ('unique', v)
+            return NotImplemented
+        return NotImplemented
+
+    def expr_scalar(self, n, env):
         if isinstance(n, ast.Constant):
             if isinstance(n.value, bool) or n.value is None or isinstance(n.value, str):
                 return ('const', n.value)
@@ -978,6 +1453,8 @@ class _State(object):
             if f == 'reshape' and len(args) == 2:
                 self.stats['shape_ops'] += 1
                 return self.expr(args[0], env)
+            if f == 'real' and len(args) == 1:
+                return self.expr(args[0], env)
             if f in SHAPE_FUNCS and len(args) >= 1:
                 self.stats['shape_ops'] += 1
                 if isinstance(args[0], ast.List) and len(args[0].elts) == 1:
@@ -1033,6 +1510,25 @@ class _State(object):
             if len(args) < npos:
                 raise Untranslatable('call of %s with too few arguments' % d, n)
             return ('ucall', cname, (), [self.expr(a, env) for a in args[:npos]])
+        if d in self.oracle_calls:
+            # an external routine (eigen-solver): its outputs become fresh parameters of the definition; what is
+            # assumed about them is a hypothesis of the theorems, and the correspondence run feeds the real outputs
+            for a in args:
+                self.expr(a, env)
+            outs = []
+            for oname, shape, ismat in self.oracle_calls[d]:
+                data = []
+                def mk(prefix, dims):
+                    if not dims:
+                        v = self.fresh(prefix)
+                        self.extra_params.append(v)
+                        data.append(('var', v))
+                        return
+                    for i in range(dims[0]):
+                        mk('%s_%d' % (prefix, i), dims[1:])
+                mk(oname, list(shape))
+                outs.append(A(shape, data, ismat))
+            return ('tuple', outs)
         if d in self.callees:
             cname, extras, npos = self.callees[d]
             if len(args) != npos or n.keywords:
